@@ -593,7 +593,7 @@ def decide(prop, tier, seed, a, rundir, woven, t0):
     return 0
 
 
-WITNESS_PROPS = {"C01", "C02", "C03", "C04", "C05", "C06", "C08", "C10", "C11", "C12", "C14", "C15", "C16", "C17", "C19", "C20"}
+WITNESS_PROPS = {"C07", "C01", "C02", "C03", "C04", "C05", "C06", "C08", "C10", "C11", "C12", "C14", "C15", "C16", "C17", "C19", "C20"}
 
 
 def write_replay(prop, viol, cmd, diags, ws, note=None):
@@ -631,7 +631,7 @@ def write_evidence(prop, tier, seed, info, meta, my_units, my_clauses, fres, my_
         samples.append({"obligation": c["id"], "kind": c["kind"], "text": c["text"][:240], "function": "/repo/src/%s:%s" % (u.get("file"), u.get("line"))})
     rewrites = [{"rule": e["rule"], "at": "src/%s:%d" % (e["file"], e["line"]), "original": e["meta"].get("original", "")[:120], "becomes": e["text"][:120]}
                 for e in meta["edits"] if e["kind"] == "replace" and e["rule"] != "W0"]
-    moves = [{"rule": e["rule"], "at": "src/%s:%d" % (e["file"], e["line"]), "what": e["meta"].get("what", "")} for e in meta["edits"] if e["kind"] == "move"]
+    moves = [{"rule": e["rule"], "at": "src/%s:%d" % (e["file"], e["line"]), "what": e["meta"].get("what", "")} for e in meta["edits"] if e["kind"] in ("move", "copy")]
     ev = {
         "property_id": prop, "tier": tier, "seed": seed, "level": "proof",
         "coverage": {
